@@ -66,7 +66,7 @@ func Verify(stump Stump, delHashes []Hash, proof Proof) ([]int, error) {
 	}
 	idx := make([]int, 0, len(cands))
 	for i := range stump.Roots {
-		if len(cands) > len(idx) && stump.Roots[len(stump.Roots)-(i+1)] == cands[len(idx)] {
+		if len(cands) > len(idx) && positions[len(idx)] == uint64(len(stump.Roots)-(i+1)) && stump.Roots[len(stump.Roots)-(i+1)] == cands[len(idx)] {
 			idx = append(idx, len(stump.Roots)-(i+1))
 		}
 	}
